@@ -230,4 +230,27 @@ CHECKS = {
         "note": "Operations are sequential; contents are 3 byte strings; "
                 "one writer configuration per history.",
     },
+    "C08": {
+        "engine": "E-INPUT", "level": "exploration",
+        "technique": "bounded exhaustive lattice sweep (sizes^3 x "
+                     "resolutions^3 x targets x max_scales; parameter "
+                     "product) with per-sub-claim arithmetic predicates",
+        "text": "The full product of 5 (quick) / 7 (thorough) sizes per "
+                "axis (1 .. 10^9) x 7 / 11 resolutions per axis (fractional, "
+                "non-power-of-two ratios, 1:25000 anisotropy) x target "
+                "chunk sizes x max_scales is run through "
+                "fill_scales_for_dyadic_pyramid (a fixed 1/50 slice through "
+                "generate_scales_info with JSON files), and each sub-claim "
+                "is checked with integer/rational arithmetic under its own "
+                "signature: distinct keys, power-of-two factors in steps of "
+                "1 or 2, power-of-two chunks of about target^3 voxels, last "
+                "scale within two target chunks, coarse axes catching up, "
+                "encoder acceptance, chunk compatibility with the pyramid "
+                "computation. The type/encoding/data_type/channels product "
+                "(720 combinations) goes through set_info_params end to "
+                "end.",
+        "note": "Lattice, not all positive reals; 'compatible' = the "
+                "envelope stated in the module. Three recorded known "
+                "findings (three distinct delays; target <= 4).",
+    },
 }
